@@ -215,6 +215,22 @@ Proof.
     destruct (forallb t_exists ts); destruct errs; cbn; reflexivity.
 Qed.
 
+(* a directory listing that breaks off part-way makes the backup incomplete *)
+Lemma partial_listing_incomplete ts id : some_target_exists ts ->
+  reached_ts ts id KDir ErrReaddirPartial ->
+  exit_code (r_err (backup ts)) = 3%N /\ In id (r_errors (backup ts)).
+Proof.
+  intros Hs Hr. split.
+  - apply (proj1 (exit_spec ts Hs)). right. exists id, KDir, ErrReaddirPartial. split; [exact Hr | reflexivity].
+  - apply (errors_reported ts id Hs). exists KDir, ErrReaddirPartial. split; [exact Hr | reflexivity].
+Qed.
+
+Example c55_partial_listing :
+  backup [mkT true (Node 1 KDir Ok (Node 2 KDir ErrReaddirPartial (Node 3 KFile Ok Nil (Node 4 KFile Ok Nil Nil))
+                                   (Node 5 KFile Ok Nil Nil)) Nil)]
+  = mkRes EInvalidSource true [1; 5]%N [2]%N.
+Proof. vm_compute. reflexivity. Qed.
+
 (* ---- non-vacuity ---- *)
 Definition ex_tree : tree :=
   Node 1 KDir Ok
